@@ -6,6 +6,7 @@ import (
 	"fmt"
 	"strings"
 	"testing"
+	"verif/fold"
 
 	"github.com/alicebob/sqlittle"
 	"pgregory.net/rapid"
@@ -170,7 +171,7 @@ func run(r *vt.Run, t vt.TB, s spec) {
 		}
 		var sel []string
 		for _, c := range cols {
-			switch strings.ToLower(c) {
+			switch fold.Lower(c) {
 			case "rowid", "oid", "_rowid_":
 				// a real column of that name wins, in SQLite and in sqlittle
 				sel = append(sel, c)
